@@ -146,10 +146,15 @@ func ReplayAll(a *Args, fn func(i int, raw json.RawMessage) Result) error {
 				return
 			}
 			done := make(chan Result, 1)
+			started := time.Now()
 			go func() { done <- Safely(i, func() Result { return fn(i, recs[i]) }) }()
 			select {
 			case r := <-done:
 				res[i] = r
+				if !r.OK && time.Since(started) > 30*time.Second {
+					// a harness-level "no progress" verdict is as slow as a hang: count it the same way
+					atomic.AddInt32(&hung, 1)
+				}
 			case <-time.After(deadline):
 				atomic.AddInt32(&hung, 1)
 				res[i] = Result{I: i, OK: false, Key: "hang", What: fmt.Sprintf("no result within %s: deadlock, livelock or runaway computation", deadline)}
